@@ -53,6 +53,7 @@ Maps(X, Y) == {Val("Map", "", <<KeyS("k"), x>>) : x \in X} \cup {Val("Map", "", 
               \cup {Val("Map", "", <<Val("I", "1", <<>>), x>>) : x \in X}                              \* integer key
               \cup {Val("Map", "", <<Val("Seq", "", <<Val("I", "1", <<>>)>>), x>>) : x \in X}          \* composite key
               \cup {Val("Map", "", <<Val("Struct", "", <<Val("I", "1", <<>>)>>), x>>) : x \in X}       \* struct key
+              \cup {Val("Map", "", <<Val("Tup", "", <<Val("I", "1", <<>>), Val("S", "x", <<>>)>>), x>>) : x \in X}   \* composite key of two elements
 Empties == {Val("Seq", "", <<>>), Val("Map", "", <<>>), Val("Tup", "", <<>>), Val("Struct", "", <<>>)}
 Level(X, Y) ==     \* one more constructor on top: children from X (and the second child from Y)
   Unary(X) \cup Nary({<<x>> : x \in X}) \cup Nary(Pairs(X, Y)) \cup Nary(Pairs(Y, X)) \cup Maps(X, Y) \cup Maps(Y, X)
@@ -62,5 +63,31 @@ D1(u) == D0 \cup Level(D0, D0)
 D2(u) == D1(u) \cup Level(D1(u), {Val("I", "1", <<>>)})
 (* a thinner depth-3 slice: one path of depth 3 *)
 D3(u) == D2(u) \cup Level(Level(Level(D0, {Val("I", "1", <<>>)}), {Val("I", "1", <<>>)}), {Val("S", "x", <<>>)})
+(* mappings with composite keys of several elements, in every kind of parent position (the key's own layout depends on *)
+(* where its mapping sits): mapping value, struct field, sequence item, variant payloads, value of another composite key *)
+CKeys == {Val("Seq", "", <<Val("I", "1", <<>>), Val("I", "2", <<>>)>>), Val("Tup", "", <<Val("I", "1", <<>>), Val("S", "x", <<>>)>>),
+          Val("TS", "", <<Val("I", "1", <<>>), Val("I", "2", <<>>), Val("I", "3", <<>>)>>), Val("Seq", "", <<Val("Seq", "", <<Val("I", "1", <<>>), Val("I", "2", <<>>)>>), Val("I", "3", <<>>)>>),
+          Val("Struct", "", <<Val("I", "1", <<>>), Val("I", "2", <<>>)>>)}
+CKMaps == {Val("Map", "", <<k, Val("I", "7", <<>>)>>) : k \in CKeys}
+          \cup {Val("Map", "", <<k, Val("I", "7", <<>>), KeyS("m"), Val("I", "8", <<>>)>>) : k \in CKeys}
+          \cup {Val("Map", "", <<KeyS("m"), Val("I", "8", <<>>), k, Val("Seq", "", <<Val("I", "7", <<>>)>>)>>) : k \in CKeys}
+Under(m) == {m, Val("Map", "", <<KeyS("k"), m>>), Val("Struct", "", <<m, Val("I", "1", <<>>)>>), Val("Struct", "", <<Val("I", "1", <<>>), m>>),
+             Val("Seq", "", <<m, m>>), Val("NV", "", <<m>>), Val("SV", "", <<m>>), Val("TV", "", <<Val("I", "1", <<>>), m>>), Val("Some", "", <<m>>),
+             Val("Map", "", <<KeyS("k"), Val("Seq", "", <<m>>)>>), Val("Map", "", <<Val("Seq", "", <<Val("I", "1", <<>>), Val("I", "2", <<>>)>>), m>>),
+             Val("Map", "", <<KeyS("k"), Val("Map", "", <<KeyS("j"), m>>)>>), Val("Seq", "", <<Val("Struct", "", <<m>>)>>)}
+KeyNest(u) == UNION {Under(m) : m \in CKMaps}
+(* deep chains: indentation grows with depth x indent_step, so layout code that works for shallow documents is also *)
+(* exercised at 32 / 64 / 100+ columns; a sibling after the deep part shows whether later entries keep their parent  *)
+RECURSIVE Chain(_, _, _)
+Chain(kind, n, leaf) ==
+  IF n = 0 THEN leaf
+  ELSE LET inner == Chain(kind, n - 1, leaf)
+           k == IF kind = "Mix" THEN (CASE n % 4 = 0 -> "Map" [] n % 4 = 1 -> "Seq" [] n % 4 = 2 -> "Struct" [] OTHER -> "NV") ELSE kind IN
+       CASE k = "Map"    -> Val("Map", "", <<KeyS("k"), inner, KeyS("m"), Val("I", "1", <<>>)>>)
+         [] k = "Seq"    -> Val("Seq", "", <<inner, Val("I", "1", <<>>)>>)
+         [] k = "Struct" -> Val("Struct", "", <<inner, Val("I", "1", <<>>)>>)
+         [] OTHER        -> Val("NV", "", <<inner>>)
+DeepSet(u) == {Chain(kind, n, leaf) : kind \in {"Map", "Seq", "Struct", "NV", "Mix"}, n \in {5, 9, 13, 17, 21},
+                                      leaf \in {Val("S", "x", <<>>), Val("Seq", "", <<Val("I", "1", <<>>), Val("I", "2", <<>>)>>)}}
 Size(v) == 1   \* placeholder for documentation; sizes are counted by the harness
 =============================================================================
